@@ -261,10 +261,10 @@ def work_seq(item):
     from sym_metanet.engines.numpy import Engine as NE
 
     inst = {"instA": NE(), "instB": CE("MX")}
-    choices = ["numpy", "casadi", "bogus", "", "NumPy", "instA", "instB", 42]
+    choices = ["numpy", "casadi", "bogus", "", "NumPy", "instA", "instB", 42, "core", "__init__", "numpy ", "casadi.Engine"]
     out = {"item": "selection sequences", "violations": [], "inconclusive": [], "samples": [], "n_queries": 0, "levels": {}, "runs": 0}
     for L in (1, 2, 3):
-        for seq in itertools.product(choices, repeat=L):
+        for seq in itertools.product(choices if L < 3 else choices[:8], repeat=L):
             out["runs"] += 1
             cur = engines.use(NE())
             for c in seq:
@@ -344,7 +344,7 @@ def main():
            "functions_encoded": ["engines.use / get_current_engine (CrossHair, symbolic str)", "every element method's engine forwarding (Network.step with recorders)",
                                  "engines.core.EngineBase subclasses (recorder, trap)"],
            "samples": samples[:10], "exhaustive": False}
-    assumptions = ["engine kinds: NumPy (symbolic arrays), CasADi SX, CasADi MX, Trap (every method records and fails)", "selection sequences are plainly enumerated (length <= 3 over 8 choices)",
+    assumptions = ["engine kinds: NumPy (symbolic arrays), CasADi SX, CasADi MX, Trap (every method records and fails)", "selection sequences are plainly enumerated (length <= 2 over 12 choices incl. names of the package's own modules, length 3 over 8)",
                    "CrossHair bound: len(name) <= 10; 'Confirmed over all paths' required"]
     harness.finish(args, "model_checking", cov, assumptions, viol, inc, t0)
 
